@@ -3255,6 +3255,44 @@ class rechunk_pushdown_keeps_planner_arguments:
                 yield {"through": through, "threshold": threshold, "limit": limit}
 
 
+@contract("dask_array/_rechunk.py::Rechunk._pushdown", spec="zero-width-target-on-a-unit-axis", props=["C14"])
+class rechunk_zero_width_on_unit_axis:
+    """a rechunk whose target puts a zero-width block on an axis of length 1 -- (1, 0) or (0, 1) -- above expand_dims or an
+    elementwise op: the optimised expression still has the requested chunks and the values are unchanged"""
+    bounded_only = True
+    params = {"above": "const", "target": "const"}
+    scope = "expand_dims / broadcast elementwise / plain array; targets (1,0), (0,1), (1,) on the unit axis"
+
+    def real():
+        return lambda: None
+
+    def call(fn, above, target):
+        import numpy as np
+        import dask_array as da
+        base = np.arange(10.0)
+        if above == "expand_dims":
+            y, want = da.from_array(base, chunks=5)[None, :], base[None, :]
+        elif above == "elemwise":
+            y, want = da.from_array(base.reshape(1, 10), chunks=(1, 5)) + 1, base.reshape(1, 10) + 1
+        else:
+            y, want = da.from_array(base.reshape(1, 10), chunks=(1, 5)), base.reshape(1, 10)
+        z = y.rechunk((target, (2, 8)))
+        return z.chunks, z.expr.optimize().chunks, np.asarray(z.compute()), want
+
+    def requires(above, target):
+        return True
+
+    def ensures(result, above, target):
+        adv, opt, got, want = result
+        return {"requested-chunks": adv == (tuple(target), (2, 8)), "optimised-expression-keeps-them": opt == adv,
+                "values-unchanged": _same(got, want)}
+
+    def domain(tier, rng):
+        for above in ("expand_dims", "elemwise", "plain"):
+            for target in ((1, 0), (0, 1), (1,), (0, 1, 0)):
+                yield {"above": above, "target": target}
+
+
 @contract("dask_array/_rechunk.py::rechunk", spec="live-siblings", props=["C14"])
 class rechunk_live_siblings:
     """several rechunks of ONE array expression that are alive at the same time and differ in a single argument (balance,
